@@ -1,6 +1,9 @@
 mod args;
 mod gen;
 mod hist;
+mod mirror;
+mod pairs;
+mod values;
 
 use serde_json::json;
 
@@ -13,6 +16,10 @@ fn main() {
     let start = std::time::Instant::now();
     let rep = match a.cmd.as_str() {
         "hist" => hist::run(&a),
+        "values" => values::run(&a),
+        "pairs" => pairs::run(&a),
+        "mirror" => mirror::run(&a),
+        "scan" => mirror::scan(&a),
         "digest" => hist::digest(&a),
         other => {
             eprintln!("unknown subcommand {}", other);
